@@ -10,6 +10,7 @@ RP : behavioural half for Go (a hand edit of the generated Go parser leaves the 
      the model written.  For JS / Java the behavioural claim rests on ATN equality (no runtime for them in the sandbox).
 """
 import json
+import os
 
 from vlib import *
 import chk_dsl
@@ -19,7 +20,70 @@ NEXT Next
 CHECK_DEADLOCK FALSE
 INVARIANTS %s
 """
-INVS = ["ArtefactsAgree", "VocabularyMatchesGrammar", "RuleBodiesMatchATN", "ListenerCallbacksExist"]
+INVS = ["ArtefactsAgree", "VocabularyMatchesGrammar", "RuleBodiesMatchATN", "ListenerCallbacksExist",
+        "ParserSkeletonsAgree", "ContextsCarryTheirRule", "GeneratedListenersMatchRules"]
+
+# ---- the generated recursive-descent code, read as text: one "skeleton" per package
+GEN = {"go": ("pkg/go/gen/openfga_parser.go", ["pkg/go/gen/openfgaparser_listener.go", "pkg/go/gen/openfgaparser_base_listener.go"]),
+       "js": ("pkg/js/gen/OpenFGAParser.ts", ["pkg/js/gen/OpenFGAParserListener.ts"]),
+       "java": ("pkg/java/src/main/gen/dev/openfga/language/antlr/OpenFGAParser.java",
+                ["pkg/java/src/main/gen/dev/openfga/language/antlr/OpenFGAParserListener.java", "pkg/java/src/main/gen/dev/openfga/language/antlr/OpenFGAParserBaseListener.java"])}
+EVENTS = {
+    "go": [("enter", r"p\.EnterRule\(localctx, (\d+), OpenFGAParserRULE_(\w+)\)"), ("exit", r"p\.ExitRule\(\)"), ("state", r"p\.SetState\((\d+)\)"),
+           ("match", r"p\.Match\(OpenFGAParser(\w+)\)"), ("alt", r"p\.EnterOuterAlt\(localctx, (\d+)\)"), ("predict", r"AdaptivePredict\(p\.BaseParser, p\.GetTokenStream\(\), (\d+),"), ("call", r"p\.([A-Z]\w*)\(\)")],
+    "js": [("enter", r"this\.enterRule\(localctx, (\d+), OpenFGAParser\.RULE_(\w+)\)"), ("exit", r"this\.exitRule\(\)"), ("state", r"this\.state = (\d+);"),
+           ("match", r"this\.match\(OpenFGAParser\.(\w+)\)"), ("alt", r"this\.enterOuterAlt\(localctx, (\d+)\)"), ("predict", r"adaptivePredict\(this\._input, (\d+), this\._ctx\)"), ("call", r"this\.(\w+)\(\)")],
+    "java": [("enter", r"enterRule\(_localctx, (\d+), RULE_(\w+)\)"), ("exit", r"exitRule\(\)"), ("state", r"setState\((\d+)\)"),
+             ("match", r"match\((\w+)\)"), ("alt", r"enterOuterAlt\(_localctx, (\d+)\)"), ("predict", r"adaptivePredict\(_input,(\d+),_ctx\)"), ("call", r"(?m)(?:^\s*|\w = )(\w+)\(\);")],
+}
+CTX = {"go": r"func (?:NewEmpty|InitEmpty|New)(\w+)Context\([^)]*\)[^{]*\{(?:(?!\nfunc ).)*?RuleIndex = OpenFGAParserRULE_(\w+)",
+       "js": r"class (\w+)Context extends ParserRuleContext \{(?:(?!\nexport class ).)*?return OpenFGAParser\.RULE_(\w+);",
+       "java": r"class (\w+)Context extends ParserRuleContext \{(?:(?!\n\tpublic static class ).)*?getRuleIndex\(\) \{ return RULE_(\w+); \}"}
+DISPATCH = {"go": r"listenerT\.((?:Enter|Exit)\w+)\(s\)", "js": r"listener\.((?:enter|exit)\w+)\(this\)", "java": r"\(\(OpenFGAParserListener\)listener\)\.((?:enter|exit)\w+)\(this\)"}
+LISTENER = {"go": r"(?m)^\s*(?:func \(s \*BaseOpenFGAParserListener\) )?((?:Enter|Exit)[A-Z]\w*)\(c(?:tx)? \*\w+Context\)", "js": r"(?m)^\s*((?:enter|exit)[A-Z]\w*)\?: \(ctx: \w+Context\) => void;",
+            "java": r"(?m)^\s*(?:@Override public )?void ((?:enter|exit)[A-Z]\w*)\(OpenFGAParser\.\w+Context ctx\)"}
+
+
+def skeletons(repo, rules):
+    """one record per package: per rule the sequence of parser actions of its method (state numbers, matched tokens, alternatives,
+    prediction decisions, calls of other rules; token-set masks are left out: the JS target splits them into 32-bit words), the rule every context class says it belongs to, the listener
+    methods the contexts dispatch to and the ones the listener files declare"""
+    import re
+    out = []
+    for lang, (pf, lfs) in GEN.items():
+        text = open(os.path.join(repo, pf), errors="replace").read()
+        pat = re.compile("|".join("(?P<%s>%s)" % (k, v.replace("(?m)", "")) for k, v in EVENTS[lang]), re.M)
+        per, cur = {}, None
+        for m in pat.finditer(text):
+            kind = m.lastgroup
+            g = [x for x in m.groups()[list(pat.groupindex.values()).index(pat.groupindex[kind]) + 1:] if x is not None] if False else None
+            grp = m.group(kind)
+            inner = re.match(EVENTS[lang][[k for k, _ in EVENTS[lang]].index(kind)][1].replace("(?m)", ""), grp, re.M)
+            args = list(inner.groups()) if inner else []
+            if kind == "call" and args and args[0] == "exitRule":       # Java: `exitRule();` stands alone on its line like a rule call
+                kind = "exit"
+            if kind == "enter":
+                cur = args[1]
+                per.setdefault(cur, []).append("enter %s %s" % (args[0], args[1]))
+            elif cur is None:
+                continue
+            elif kind == "exit":
+                per[cur].append("exit")
+                cur = None
+            elif kind == "call":
+                name = args[0][:1].lower() + args[0][1:]
+                if name in rules:
+                    per[cur].append("call " + name)
+            else:
+                per[cur].append(kind + " " + " ".join(args))
+        ctxs = sorted({(a, b) for a, b in re.findall(CTX[lang], text, re.S)})
+        disp = sorted(set(re.findall(DISPATCH[lang], text)))
+        decl = []
+        for lf in lfs:
+            decl.append(sorted(set(re.findall(LISTENER[lang], open(os.path.join(repo, lf), errors="replace").read()))))
+        out.append({"kind": "skeleton", "lang": lang, "rules": per, "ctxrule": [list(x) for x in ctxs], "dispatch": disp, "listeners": decl})
+    return out
+
 
 
 def explain(recs, inv):
@@ -55,6 +119,35 @@ def explain(recs, inv):
         for k in sorted(set(ar) | set(g)):
             if ar.get(k) != g.get(k):
                 out.append("rule %s: ATN-only references %s, grammar-only %s" % (k, sorted(set(ar.get(k, [])) - set(g.get(k, []))), sorted(set(g.get(k, [])) - set(ar.get(k, [])))))
+    elif inv == "ParserSkeletonsAgree":
+        sk = {r["lang"]: r["rules"] for r in recs if r["kind"] == "skeleton"}
+        for lang in ("js", "java"):
+            for rule in sorted(set(sk["go"]) | set(sk[lang])):
+                a, b = sk["go"].get(rule), sk[lang].get(rule)
+                if a != b:
+                    i = next((i for i in range(min(len(a or []), len(b or []))) if a[i] != b[i]), min(len(a or []), len(b or [])))
+                    out.append("generated code of rule %s: go and %s part at action %d (%s vs %s)" % (rule, lang, i, (a or [])[i:i + 1], (b or [])[i:i + 1]))
+        rules = next(r for r in recs if r["kind"] == "replica" and r["artefact"] == "parser" and r["lang"] == "go")["rules"]
+        for lang, per in sk.items():
+            if sorted(per) != sorted(rules):
+                out.append("%s: rule methods %s differ from the rules" % (lang, sorted(set(per) ^ set(rules))))
+    elif inv == "ContextsCarryTheirRule":
+        rules = next(r for r in recs if r["kind"] == "replica" and r["artefact"] == "parser" and r["lang"] == "go")["rules"]
+        for r in recs:
+            if r["kind"] == "skeleton":
+                for c, rule in r["ctxrule"]:
+                    if c[:1].lower() + c[1:] != rule:
+                        out.append("%s: context class %sContext carries rule index of %s" % (r["lang"], c, rule))
+                if sorted({x[1] for x in r["ctxrule"]}) != sorted(rules):
+                    out.append("%s: rules without a context class of their own: %s" % (r["lang"], sorted(set(rules) - {x[1] for x in r["ctxrule"]})))
+    elif inv == "GeneratedListenersMatchRules":
+        rules = next(r for r in recs if r["kind"] == "replica" and r["artefact"] == "parser" and r["lang"] == "go")["rules"]
+        for r in recs:
+            if r["kind"] == "skeleton":
+                want = sorted(p + x[:1].upper() + x[1:] for x in rules for p in (("Enter", "Exit") if r["lang"] == "go" else ("enter", "exit")))
+                for what, names in [("dispatch", r["dispatch"])] + [("listener file %d" % i, l) for i, l in enumerate(r["listeners"])]:
+                    if sorted(names) != want:
+                        out.append("%s %s: only there %s, missing %s" % (r["lang"], what, sorted(set(names) - set(want)), sorted(set(want) - set(names))))
     else:
         rules = next(r for r in recs if r["kind"] == "replica" and r["artefact"] == "parser" and r["lang"] == "go")["rules"]
         for n in next(r for r in recs if r["kind"] == "callbacks")["names"]:
@@ -78,6 +171,13 @@ def run(pid, tier):
             chk.cov.update(explanation="extraction failed", evaluations=1, distinct_nontrivial=2)
             return chk.finish()
         recs = read_ndjson(af)
+        prules = next(r for r in recs if r["kind"] == "replica" and r["artefact"] == "parser" and r["lang"] == "go")["rules"]
+        sk = skeletons(REPO, prules)
+        for k in sk:
+            if len(k["rules"]) < 5 or len(k["ctxrule"]) < 5 or not k["dispatch"] or not all(k["listeners"]):
+                raise Infra("the text patterns for the generated %s parser match almost nothing (rules %d, contexts %d): generator output format changed?" % (k["lang"], len(k["rules"]), len(k["ctxrule"])))
+        recs += sk
+        write_ndjson(af, recs)
         states = 0
         for inv in INVS:
             res = run_tlc("Artefacts", CFG % inv, sc, data_files={"artefacts.ndjson": af}, timeout=600, xss="256m")
